@@ -255,3 +255,91 @@ func CorpusHighQcOneHash(o sink, variant string) {
 	r.o.Sample(fmt.Sprintf("%s: locked replica 1 on the mismatching proposal: interrupted=%v why=%s; commits: %s", r.name, res1.Interrupted, res1.Why, commitsStr(s)))
 	r.end()
 }
+
+// CorpusLockFromOtherPhase: every replica locks on A in round 0 and only replica 3 commits. Then a certificate of ANOTHER
+// phase is offered as a lock for a fresh block B: a genuine ELECTION_VOTE certificate (its signature covers only header
+// and proposer key) with B's block, results and hashes stapled on. CheckHighQC's phase check must reject it.
+//   - variant "propose": the Byzantine leader of round 1 attaches the forged certificate of its own round to its PROPOSE;
+//   - variant "election-vote": the Byzantine leader of round 1 keeps its election certificate and, in round 2, hands the
+//     correct leader an ELECTION_VOTE whose HighQc is that certificate with B stapled on.
+//
+// If it passes, replicas locked on A@(10,0) unlock by LIVENESS (round 1 > round 0), lock and commit B.
+func CorpusLockFromOtherPhase(o sink, variant string) {
+	cfg := bftsim.Config{N: 4, Powers: []uint64{1, 1, 1, 1}, Byz: []int{0}, Root0: 10}
+	is0 := func(i int) bool { return i == 0 }
+	want := map[bftsim.VR]func(int) bool{{Root: 10, Round: 0}: is0, {Root: 10, Round: 1}: is0}
+	if variant == "election-vote" {
+		want[bftsim.VR{Root: 10, Round: 2}] = func(i int) bool { return i == 1 }
+	}
+	cfg.Salt = findSalt(cfg, want)
+	r := newRun(o, "corpus/lock-from-other-phase/"+variant, cfg)
+	r.sigSuffix = "lock-from-other-phase"
+	s := r.s
+	A := all(s)
+	// round 0: A certified, everybody locks, only replica 3 commits
+	r.elect(A, nil)
+	r.byzPropose(0, nil, "fresh")
+	r.deliverAll(nil)
+	r.phases([]int{1, 2, 3}) // PROPOSE
+	r.phases(A)              // PROPOSE_VOTE
+	r.deliverAll(nil)
+	r.phases(A) // PRECOMMIT
+	r.deliverAll(nil)
+	r.phases(A) // PRECOMMIT_VOTE: all lock on A
+	r.deliverAll(nil)
+	r.phases(A) // COMMIT
+	r.deliverAll(func(e *bftsim.Envelope) bool { return e.To == 3 })
+	r.dropAll()
+	r.phases(A) // COMMIT_PROCESS: 3 commits, the others interrupt
+	live := liveOf(s, A)
+	r.toElection(live)
+	if !committed(s, 3) || len(live) != 3 {
+		r.o.Count("lock-from-other-phase:setup-failed")
+		r.end()
+		return
+	}
+	blkB, resB := s.NewBlock("byz-B")
+	// round 1: the Byzantine leader holds the ELECTION_VOTE certificate of the round
+	r.elect(live, nil)
+	ec := s.ElectionCertOfCurrentRound(0)
+	if ec == nil {
+		r.o.Count("lock-from-other-phase:setup-failed")
+		r.end()
+		return
+	}
+	forged := s.ByzForgedLockFromOtherPhase(0, ec, blkB, resB)
+	var res1 bftsim.StepResult
+	if variant == "propose" {
+		r.byzPropose(0, forged, "justified-by-forged-election-certificate")
+		s.ByzForgetLock(0)
+		r.deliverAll(nil)
+		r.phases([]int{1, 2}) // PROPOSE
+		res1 = r.phase(1)     // PROPOSE_VOTE
+		r.phase(2)
+		r.phase(0)
+		r.deliverAll(nil)
+		r.runRound(live, 0)
+	} else {
+		r.dropAll() // the Byzantine leader proposes nothing: round 1 fails
+		r.toElectionNext(live)
+		// round 2, correct leader 1: the Byzantine ELECTION_VOTE carries the forged certificate of round 1
+		r.phases(live) // ELECTION
+		r.dropAll()
+		r.phases(live) // ELECTION_VOTE
+		s.Take(func(e *bftsim.Envelope) bool { return e.From == 0 && e.Kind == "ELECTION_VOTE" })
+		s.ByzElectionVote(0, bftsim.VR{Root: 10, Round: 2}, 1, forged, 1)
+		r.log("byz 0 sends the leader an ELECTION_VOTE whose HighQc is the round-1 ELECTION_VOTE certificate with block B stapled on")
+		r.o.Count("byz:election-vote-with-forged-lock")
+		r.deliverAll(nil)
+		s.ByzForgetLock(0)
+		r.phases(live) // PROPOSE
+		r.deliverAll(nil)
+		res1 = r.phase(2) // PROPOSE_VOTE of the other locked replica
+		r.phase(1)
+		r.phase(0)
+		r.deliverAll(nil)
+		r.runRound(live, 0)
+	}
+	r.o.Sample(fmt.Sprintf("%s: a locked replica on the proposal justified by the forged lock: interrupted=%v why=%s branch=%s; commits: %s", r.name, res1.Interrupted, res1.Why, res1.Branch, commitsStr(s)))
+	r.end()
+}
